@@ -107,7 +107,10 @@ func (tw *TimerWheel[K, V]) advance(now int64, remove func(entry *Entry[K, V], r
 		if currentTicks <= prevTicks {
 			break
 		}
-		tw.expire(i, prevTicks, currentTicks-prevTicks, remove)
+		// also visit the slot of the current tick: entries parked on a coarse
+		// wheel must cascade down to a finer wheel before their deadline,
+		// not one coarse tick after it.
+		tw.expire(i, prevTicks, currentTicks-prevTicks+1, remove)
 	}
 }
 
